@@ -96,6 +96,27 @@ CHECKS.update({
     ),
 })
 
+CHECKS.update({
+    'C08': dict(
+        script='checks/c08.py', category='model_checking', design='DESIGN.md §4 C08',
+        text=('Bounded model checking of call histories on the real IR: a processor shared by two TimeZone values and zone '
+              'managers with 1 and 2 cache slots; a history is <=3 (quick) / <=4 (thorough) accessor calls (getUtcOffset, '
+              'getDeltaOffset, getAbbrev, printTo) x zone x argument class, every argument symbolic inside its class (an '
+              'in-range UTC year, far below / far above the zone data, the error sentinel); after it one more symbolic query is '
+              'answered by the used objects and by a fresh time zone with its own processor in the same state, and the '
+              'answers must coincide (SMT per path). Fixed patterns (repeat out-of-range, A-then-B) plus seed-drawn histories '
+              'and zone pairs.'),
+        technique='symbolic execution of clang LLVM IR (llsym) + SMT; bounded history enumeration with symbolic arguments',
+    ),
+    'C16': dict(
+        script='checks/c16.py', category='model_checking', design='DESIGN.md §4 C16',
+        text=('TimeZone / TimeZoneData / ZoneManager on the real IR: manual offsets (all int16 pairs, two operands), probe '
+              'instants and zone ids (including ids assumed absent from all registry entries) are solver variables; every '
+              'entry of both shipped registries is a concrete case (save, restore, equality, same answers).'),
+        technique='symbolic execution of clang LLVM IR (llsym) + SMT; registry index case split',
+    ),
+})
+
 NOT_APPLICABLE = {
     'C19': ('the generators are sampling loops around pytz/dateutil tzinfo objects backed by binary tz files and '
             'C-implemented datetime; neither CrossHair nor our symbolic executor can make those symbolic, and a '
